@@ -127,6 +127,20 @@ template <> struct Elem<int64_t> {
     static int64_t make(int64_t v) { return v; }
     static int64_t show(const int64_t &v) { return v; }
 };
+// doubles: value v <-> v + 0.5, and 0 <-> -0.0 (so that the sign of zero and the fractional part are
+// part of "exactly those values"); anything else reads as a sentinel
+template <> struct Elem<double> {
+    static constexpr bool tracked = false;
+    static double make(int64_t v) { return v == 0 ? -0.0 : (double) v + 0.5; }
+    static int64_t show(const double &x) {
+        uint64_t bits; memcpy(&bits, &x, 8);
+        if (bits == 0xbebebebebebebebeULL) return (int64_t) 0xbebebebebebebebeULL;
+        if (bits == 0x8000000000000000ULL) return 0;
+        double f = x - 0.5;
+        if (f == (double) (int64_t) f && f != 0 && f > -1e15 && f < 1e15) return (int64_t) f;
+        return -424242;
+    }
+};
 template <> struct Elem<Tracked> {
     static constexpr bool tracked = true;
     static Tracked make(int64_t v) { return Tracked(v); }
